@@ -941,12 +941,10 @@ func c16Expect(seq c16Seq, res c16SeqRes) []string {
 					say(i, "SetSchema-without-reset-changed-a-set-schema", js(prev)+" -> "+js(cur))
 				}
 			case st.Class != ClsOk:
-				// a rejected field (unknown version, version and schema together) may leave the version string behind, but
-				// it must not re-arm initSchema, touch the maps or the custom schema
-				want := prev
-				want.Version = cur.Version
-				if js(cur) != js(want) {
-					say(i, "rejected-SetSchema-changed-more-than-the-version", js(prev)+" -> "+js(cur))
+				// a rejected field (unknown version, version and schema together) changes nothing at all (since /repo 7964400
+				// an unknown version is rejected before it is stored)
+				if js(cur) != js(prev) {
+					say(i, "rejected-SetSchema-changed-the-state", js(prev)+" -> "+js(cur))
 				}
 			case isDefaultField(op.Ver, op.Schema):
 				if prev.HasCustom {
